@@ -11,7 +11,7 @@ MIN_EVALUATIONS = {"quick": 12000, "thorough": 12000}  # fewer oracle evaluation
 RULE = ("read()/write() calls of 1-40 requests mixing VALID requests (judged as in C01/C02) with INVALID ones of exactly the classes the "
         "statement lists {unknown tag, unknown member (named or numeric), member of an atomic, index out of range (just beyond the dimension and at 255/256, "
         "65535/65536, 2^31, 2^32-1, 2^32, 10^20), count out of range, unencodable value, "
-        "too-short value list (also a scalar / None for a {n} request), misaligned BOOL-array write, controller error status forced by the target (tabled and untabled general statuses, extended words inside / outside the library's tables, none, two)} at every position class (first/"
+        "too-short value list (also a scalar / None for a {n} request), misaligned BOOL-array write, controller error status forced by the target (tabled and untabled general statuses, extended words inside / outside the library's tables, none, two)} (a third of the write calls also repeat one of their valid bit writes once or twice: each occurrence is a request of its own) at every position class (first/"
         "last/all/alternating/random), with sizes that spread the requests over several multi-service packets, fragmented transfers and "
         "bit-write groups, on every controller configuration; oracle: arity/shape (single Tag iff n=1), i-th Tag answers the i-th request "
         "(name, value), invalid -> falsy Tag with non-empty error and no exception, valid requests unaffected (values / memory), "
